@@ -12,6 +12,7 @@ import (
 	"github.com/bronlabs/bron-crypto/pkg/base"
 	"github.com/bronlabs/bron-crypto/pkg/base/algebra"
 	"github.com/bronlabs/bron-crypto/pkg/base/nt/cardinal"
+	"github.com/bronlabs/bron-crypto/pkg/base/serde"
 )
 
 // Field is the model prime field GF(q) of one run. It satisfies algebra.PrimeField[*F].
@@ -103,7 +104,7 @@ func (f *Field) FromComponentsBytes(data [][]byte) (*F, error) {
 // Hash maps bytes to a field element: an unknown-but-fixed function of the input (random-oracle
 // idealisation): equal inputs give the same symbolic variable.
 func (f *Field) Hash(b []byte) (*F, error) {
-	return f.mk(f.run.newVar("hashF:" + digestHex(b))), nil
+	return f.mk(f.run.newVarL("hashF:" + digestHex(b))), nil
 }
 
 // Random consumes exactly WideElementSize bytes of the reader and returns a fresh symbolic variable
@@ -170,7 +171,8 @@ func (e *F) IsSymbolic() bool { return !e.p.isConst() }
 // Big returns the concrete value (panics for symbolic elements).
 func (e *F) Big() *big.Int {
 	if !e.p.isConst() {
-		Unsupported("concrete value of a symbolic field element requested")
+		e.f.run.poison("unsupported", "concrete value of a symbolic field element requested")
+		return new(big.Int)
 	}
 	return e.p.constVal()
 }
@@ -199,8 +201,8 @@ func (e *F) TryInv() (*F, error) {
 	if e.f.run.decide(IsZeroF(e)) {
 		return nil, fmt.Errorf("symalg: division by zero")
 	}
-	Unsupported("inverse of a symbolic field element (DESIGN §6 barrier 2)")
-	return nil, nil
+	e.f.run.poison("unsupported", "inverse of a symbolic field element (DESIGN §6 barrier 2)")
+	return nil, fmt.Errorf("symalg: inverse of a symbolic element is not encodable")
 }
 
 func (e *F) TryDiv(o *F) (*F, error) {
@@ -280,8 +282,32 @@ func (e *F) String() string {
 	return "sym{" + trunc(e.p.key(), 60) + "}"
 }
 
-// MarshalBinary / UnmarshalBinary let the element pass through CBOR.
+// MarshalBinary returns Bytes().
 func (e *F) MarshalBinary() ([]byte, error) { return e.Bytes(), nil }
+
+type elemDTO struct {
+	B []byte `cbor:"fieldBytes"`
+}
+
+// MarshalCBOR / UnmarshalCBOR let elements pass through the library's CBOR layer (proof bytes,
+// DTOs): symbolic elements travel as interned handles and are resolved on decoding.
+func (e *F) MarshalCBOR() ([]byte, error) { return serde.MarshalCBOR(&elemDTO{B: e.Bytes()}) }
+
+func (e *F) UnmarshalCBOR(data []byte) error {
+	dto, err := serde.UnmarshalCBOR[*elemDTO](data)
+	if err != nil {
+		return err
+	}
+	if current == nil {
+		return fmt.Errorf("symalg: no active run")
+	}
+	v, err := current.field.FromBytes(dto.B)
+	if err != nil {
+		return err
+	}
+	*e = *v
+	return nil
+}
 
 // ---------------------------------------------------------------------------------------------
 // handles (semantic interning, DESIGN §4.1)
@@ -295,6 +321,8 @@ func digestHex(b []byte) string {
 }
 
 func (r *Run) lookupHandle(kind byte, b []byte) (*Poly, bool) {
+	r.mu.Lock()
+	defer r.mu.Unlock()
 	if ix, ok := r.handleIx[string(b)]; ok && r.interned[ix].kind == kind {
 		return r.interned[ix].p, true
 	}
@@ -304,6 +332,8 @@ func (r *Run) lookupHandle(kind byte, b []byte) (*Poly, bool) {
 // intern assigns a handle to a symbolic term: provably equal terms share a handle, otherwise the
 // genericity assumption t ≠ t' is recorded (it is consistent: equality was not entailed).
 func (r *Run) intern(kind byte, p *Poly, size int) []byte {
+	r.mu.Lock()
+	defer r.mu.Unlock()
 	for _, e := range r.interned {
 		if e.kind != kind {
 			continue
@@ -324,7 +354,7 @@ func (r *Run) intern(kind byte, p *Poly, size int) []byte {
 		case Unsat: // negation unsatisfiable: provably equal under the path condition
 			return append([]byte(nil), e.h...)
 		case Unknown:
-			r.inconclusive("interning: equality of hashed terms undecided")
+			r.poison("inconclusive", "interning: equality of hashed terms undecided")
 		}
 	}
 	// new handle; record genericity assumptions against all previous terms of the same kind
